@@ -20,7 +20,8 @@ Definition optimised (r : trun) : bool :=
   | [] => false
   | [_] => true
   | ss => negb (has_dur r && alleq_dur ss) && negb (has_size r && alleq_size ss)
-          && negb (has_sflags r && alleq_flags ss) && negb (has_cto r && all_cto0 ss)
+          && negb (has_sflags r && alleq_flags ss)
+          && negb (has_cto r && all_cto0 ss && ((N.of_nat (length ss) <=? MAX_BARE) || other_field r))
   end.
 
 Lemma opt_dur_alt tf tr : opt_dur tf tr =
@@ -76,7 +77,7 @@ Qed.
 
 Lemma opt_cto_step tf tr : step_ok B_CTO tr (snd (opt_cto tf tr)).
 Proof.
-  unfold opt_cto. destruct (has_cto tr && _); [|apply step_ok_refl]. cbn [snd].
+  unfold opt_cto. destruct (_ && _ && _); [|apply step_ok_refl]. cbn [snd].
   constructor; try reflexivity; intros; bits; try reflexivity; congruence.
 Qed.
 
@@ -103,9 +104,13 @@ Proof.
   destruct (negb (s_flags s0 =? s_flags s1)); cbn [snd]; bits; reflexivity.
 Qed.
 
-Lemma opt_cto_done tf tr : has_cto (snd (opt_cto tf tr)) && all_cto0 (tr_samples tr) = false.
+(* the fourth block (repaired text, C05-F7): it leaves the field only when some offset is non-zero, or when the trun has
+   more than MAX_BARE samples and no other per-sample field *)
+Lemma opt_cto_done tf tr :
+  has_cto (snd (opt_cto tf tr)) && all_cto0 (tr_samples tr)
+  && ((N.of_nat (length (tr_samples tr)) <=? MAX_BARE) || other_field (snd (opt_cto tf tr))) = false.
 Proof.
-  unfold opt_cto, all_cto0. destruct (has_cto tr && forallb _ _) eqn:C; cbn [snd]; [|exact C]. bits. reflexivity.
+  unfold opt_cto, all_cto0. destruct (has_cto tr && forallb _ _ && _) eqn:C; cbn [snd]; [|exact C]. bits. reflexivity.
 Qed.
 
 (* (O1) the result of a successful optimisation is optimised *)
